@@ -81,3 +81,30 @@ def eval_d_unit(unit, specs_results):
         spec, r = keep[i]
         unit.mismatches.append(dict(case=spec_full(spec), note="model driver and Search disagree (see case_diff)",
                                     observed_last=jsonable(r["obs"][-1]) if r["obs"] else None))
+
+
+# ----------------------------------------------------------------------------- general specs
+def general_spec(rng, name, *, nonfinite=0.0, metrics=None, constraint=False, max_calls=3, memory=None,
+                 verbosity=None, sizes=(1, 2, 3, 5, 8), max_points=120, n_max=14, warm=0, cfg=None, steps_api=None,
+                 ndims=None):
+    space, meta = gen.gen_space(rng, ndims=ndims, sizes=sizes, max_points=max_points)
+    m = rng.choice([0, 0, 1, 2]) if metrics is None else metrics
+    table, kind = gen.gen_table(rng, space, nonfinite=nonfinite, metrics=m)
+    feas = None
+    if constraint:
+        feas, desc = gen.gen_constraint(rng, space)
+    init = gen.gen_initialize(rng, space, warm=warm)
+    ncalls = rng.randint(1, max_calls)
+    calls = []
+    for _ in range(ncalls):
+        c = dict(n_iter=rng.choice([1, 2, 3, 5, 8, n_max]))
+        c["memory"] = (rng.random() < 0.6) if memory is None else memory
+        v = verbosity if verbosity is not None else rng.choice([False, [], ["progress_bar"], ["print_results"],
+                                                                 ["progress_bar", "print_results", "print_times"]])
+        c["verbosity"] = v
+        calls.append(c)
+    c2 = cfg if cfg is not None else gen.gen_opt_config(rng, name, space)
+    return dict(name=name, space=space, table=table, calls=calls, seed=rng.randrange(10 ** 6), init=init,
+                feasible=feas, cfg=c2, scalar=rng.choice(["float", "np", "int"]),
+                steps_api=(rng.random() < 0.2) if steps_api is None else steps_api,
+                read_cost=rng.choice([0, 1]), default_duration=rng.choice([0, 1, 2]), meta=meta, table_kind=kind)
